@@ -329,6 +329,50 @@ fn scripted(v: Variant) -> Vec<Hist> {
             st(t0 + DAY_NS + 2, "creator", upd_roy(7 * PCT)),
         ],
     });
+    // migration to the sg721-updatable code between royalty updates: the 24 h anchor must
+    // survive it (it is re-initialised only for records older than 3.1.0, which predate it)
+    if matches!(v, Variant::Base | Variant::Updatable | Variant::UpdatableMigrated) {
+        let names: Vec<&str> = if v == Variant::UpdatableMigrated { vec![] } else if v == Variant::Base { vec![NAME_BASE, NAME_BASE_LEGACY] } else { vec![NAME_UPD, NAME_UPD_LEGACY] };
+        let mut cw2s: Vec<Option<(String, String)>> = vec![None];
+        for n in &names {
+            for ver in version_grid() {
+                cw2s.push(Some((n.to_string(), ver)));
+            }
+        }
+        for (i, cw2) in cw2s.into_iter().enumerate() {
+            let a = t0 + DAY_NS;
+            for (gap_mig, gap_upd) in [(1u64, 3_600_000_000_000u64), (DAY_NS - 2, DAY_NS - 1), (DAY_NS - 1, DAY_NS), (3_600_000_000_000, DAY_NS + 1)] {
+                if i % 3 != 0 && gap_mig != 1 {
+                    continue;
+                }
+                out.push(Hist {
+                    setup: Setup { cw2: cw2.clone(), ..setup_with(v, Some(5 * PCT)) },
+                    steps: vec![
+                        st(a, "creator", upd_roy(7 * PCT)),
+                        st(a + gap_mig, "alice", Op::Migrate),
+                        st(a + gap_mig, "creator", Op::Migrate),
+                        st(a + gap_upd, "creator", upd_roy(9 * PCT)),
+                        st(a + gap_upd + 1, "creator", Op::Migrate),
+                        st(a + DAY_NS, "creator", upd_roy(9 * PCT)),
+                        st(a + DAY_NS + DAY_NS - 1, "creator", upd_roy(10 * PCT)),
+                        st(a + 3 * DAY_NS, "creator", upd_roy(10 * PCT)),
+                    ],
+                });
+            }
+            // migrate first, then the first update of the collection's life at 24 h -1 / +0
+            out.push(Hist {
+                setup: Setup { cw2, ..setup_with(v, Some(5 * PCT)) },
+                steps: vec![
+                    st(t0 + 10, "creator", Op::Migrate),
+                    st(t0 + 11, "creator", upd_roy(6 * PCT)),
+                    st(t0 + DAY_NS - 1, "creator", upd_roy(6 * PCT)),
+                    st(t0 + DAY_NS, "creator", upd_roy(6 * PCT)),
+                    st(t0 + DAY_NS + 5, "creator", Op::Migrate),
+                    st(t0 + DAY_NS + 6, "creator", upd_roy(8 * PCT)),
+                ],
+            });
+        }
+    }
     // u64 clock overflow of anchor + 24 h
     out.push(Hist {
         setup: Setup { time0: u64::MAX - DAY_NS + 1, ..setup_with(v, Some(5 * PCT)) },
@@ -346,6 +390,10 @@ fn random_hist(v: Variant, rng: &mut Rng, len: usize) -> Runner {
     let mut setup = setup_with(v, *rng.pick(&bases));
     if rng.chance(1, 4) {
         setup.minter = "minter2".into();
+    }
+    if rng.chance(1, 3) && matches!(v, Variant::Base | Variant::Updatable) {
+        let n = if v == Variant::Base { *rng.pick(&[NAME_BASE, NAME_BASE_LEGACY]) } else { *rng.pick(&[NAME_UPD, NAME_UPD_LEGACY]) };
+        setup.cw2 = Some((n.to_string(), rng.pick(&version_grid()).clone()));
     }
     let mut r = Runner::new(&setup);
     if !r.alive() {
@@ -377,6 +425,7 @@ fn random_hist(v: Variant, rng: &mut Rng, len: usize) -> Runner {
             }),
             2 => Op::UpdateInfo(UpdSpec { description: Some("other".into()), ..Default::default() }),
             3 => Op::Mint { id: rng.below(3), owner: "alice".into(), uri: None },
+            4 => Op::Migrate,
             _ => {
                 let c = cur.unwrap_or(0);
                 let share = match rng.below(14) {
@@ -468,6 +517,13 @@ pub fn history_monitor(r: &Runner) -> Option<(String, String)> {
         }
         if rec.ok && matches!(rec.step.op, Op::FreezeInfo) {
             frozen = true;
+        }
+        // a deployment older than 3.1.0 has no cadence anchor at all (the field was added
+        // in 3.1.0); its migration creates one at now - 24 h, so the cadence starts there.
+        // Any other migration must leave the cadence alone.
+        if rec.ok && matches!(rec.step.op, Op::Migrate) && parse_triple(&rec.before.cw2.1) < (3, 1, 0) {
+            last_accept = None;
+            anchor = rec.step.at.saturating_sub(DAY_NS);
         }
     }
     None
@@ -581,7 +637,7 @@ pub fn run(a: &Args) {
         }
     }
     rep.distinct_nontrivial = distinct.len() as u64;
-    rep.rule = "evaluations = royalty_payout calls + instantiations + executed history steps. Payout: shares {none, 0, 1, 1%, 2%, 5%, 10%, 50%, 99%, 100%, 200%, u128::MAX} +-1 atomic x payments (small, 10^k, 10^18, u128::MAX, +-1) x fees on the `fees + royalty = payment` boundary +-1, with/without finder's fee, plus random u128. Histories: per variant (base, updatable, updatable-migrated, metadata-onchain, nt) instantiate shares around 100%, clocks at 24h-1ns/24h/24h+1ns from creation and from the previous accepted change, raises of 2% +-1 atomic from 12 bases, cap 10% +-1 atomic, first royalty on a royalty-less collection, climbs, non-creator senders, frozen collection, u64 clock overflow, then random royalty histories. Non-trivial = payout that pays or refuses; history step (distinct by variant, call, sender, outcome and prior observation) that is not a message-does-not-exist rejection.".into();
+    rep.rule = "evaluations = royalty_payout calls + instantiations + executed history steps. Payout: shares {none, 0, 1, 1%, 2%, 5%, 10%, 50%, 99%, 100%, 200%, u128::MAX} +-1 atomic x payments (small, 10^k, 10^18, u128::MAX, +-1) x fees on the `fees + royalty = payment` boundary +-1, with/without finder's fee, plus random u128. Histories: per variant (base, updatable, updatable-migrated, metadata-onchain, nt) instantiate shares around 100%, clocks at 24h-1ns/24h/24h+1ns from creation and from the previous accepted change, raises of 2% +-1 atomic from 12 bases, cap 10% +-1 atomic, first royalty on a royalty-less collection, climbs, non-creator senders, frozen collection, u64 clock overflow, admin migrations to the sg721-updatable code between royalty updates at 1 ns / 1 h / 24 h -1 / +0 / +1 over the same cw2 name x version grid as C09, then random royalty histories (with migrations). Non-trivial = payout that pays or refuses; history step (distinct by variant, call, sender, outcome and prior observation) that is not a message-does-not-exist rejection.".into();
     out.write_cases("C10", "From LP Require Import Collection C10Corr.", "c10_case", "c10_check", &coq_cases, 6, &mut rep);
     out.finish(&rep);
     println!("C10 harness: {} evaluations in {} cases, {} monitor violations", rep.evaluations, coq_cases.len(), nviol);
